@@ -18,10 +18,12 @@ def run(tier, seed):
                            timeout=600, expect="violation")
         if not r["violated"]:
             raise vlib.Broken("the variant of FutexMulti (%s) is not rejected: the properties are vacuous" % what)
-    for cfg, what in (("BarrierProtoMC.cfg", "3 callers, 3 waiters, 2 rounds, incl. liveness"), ("BarrierProtoMC2.cfg", "3 callers sharing a barrier of 2 waiters, 3 rounds each: overlapping rounds")):
+    for cfg, what in (("BarrierProtoMC.cfg", "3 callers, 3 waiters, 2 rounds, incl. liveness"), ("BarrierProtoMC2.cfg", "3 callers sharing a barrier of 2 waiters, 3 rounds each: overlapping rounds"),
+                      ("BarrierProtoReinit.cfg", "3 callers, re-initialised between 3 and 2 waiters by callers that have left a round while the others are leaving")):
         vlib.tlc_check(chk, "BarrierProto: ABT_barrier_wait as coded (lock, counter, wait list, broadcast, reset), exhaustive, %s" % what,
                        os.path.join(d, "BarrierProto.tla"), os.path.join(d, cfg), timeout=600)
-    for cfg, what in (("BarrierProtoResetLate.cfg", "counter reset after the lock is released"), ("BarrierProtoBcastLate.cfg", "broadcast issued after the lock is released")):
+    for cfg, what in (("BarrierProtoResetLate.cfg", "counter reset after the lock is released"), ("BarrierProtoBcastLate.cfg", "broadcast issued after the lock is released"),
+                      ("BarrierProtoSubReset.cfg", "counter reset by subtracting a waiter count that a re-initialisation has changed (= seeded C08-m7)")):
         r = vlib.tlc_check(chk, "BarrierProto with the %s (must be violated: a caller leaves an incomplete round)" % what, os.path.join(d, "BarrierProto.tla"), os.path.join(d, cfg),
                            timeout=600, expect="violation")
         if not r["violated"]:
